@@ -36,7 +36,7 @@ def encs(a):
     return [enc(x) for x in a]
 
 
-def user_kernel(path, variant=0, bad=False):
+def user_kernel(path, variant=0, bad=False, row_perm=None):
     """A 5-column kernel file in the documented layout (pressure rows, one column per pore size).
     variant 1: other pore sizes and other isotherms, meant to be stored under the SAME file name elsewhere."""
     # pore sizes cross 10 and 100 nm: the column labels ('0.5', '2.0', '9.5', '12.0', '110.0') sort differently as strings
@@ -45,7 +45,7 @@ def user_kernel(path, variant=0, bad=False):
     os.makedirs(os.path.dirname(path), exist_ok=True)
     with open(path, "w", encoding="utf8") as f:
         f.write("," + ",".join(repr(w) for w in widths) + "\n")
-        for p in pressures:
+        for p in ([pressures[i - 1] for i in row_perm] if row_perm else pressures):      # row order of the file (spec RowPerm)
             row = [(30.0 if variant == 0 else 22.0) / w ** 0.5 * p / (p + (1e-5 if variant == 0 else 3e-5) * w ** 1.5) + 2.0 * p for w in widths]
             cells = [repr(v) for v in row]
             if bad and abs(math.log10(p) + 3.25) < 0.25:
@@ -59,6 +59,7 @@ def read_kernel(path):
     import pandas
     with open(path, encoding="utf8") as fp:
         raw = pandas.read_csv(fp, index_col=0)
+    raw = raw.sort_index()          # the harness's copy of the table is in ascending pressure whatever the file's row order
     return numpy.asarray(raw.index, dtype=float), numpy.asarray(raw.columns, dtype=float), numpy.asarray(raw.values, dtype=float)
 
 
@@ -83,7 +84,7 @@ def main(tier, seed):
     thorough = tier == "thorough"
 
     res = tlc.must_pass("KernelMC", timeout=900)
-    run.set(states=res["distinct"], transitions=res["states_generated"], tlc_depth=res["depth"], tlc_invariants=["WellFormed", "Covers"])
+    run.set(states=res["distinct"], transitions=res["states_generated"], tlc_depth=res["depth"], tlc_invariants=["WellFormed", "Covers", "RowOrdersOk", "AltGridOk"])
 
     tmp = tlc.scratch("c18-")
     try:
@@ -114,7 +115,8 @@ def main(tier, seed):
 
         # kernel-file histories (spec/Kernel.tla Histories): two user kernels with the same file name used in every order;
         # every fit is judged against ITS file's content like a first call
-        hist = tlc.oracle("KernelOracle", [{"k": "hist"}], timeout=300)[0]["histories"]
+        hq = tlc.oracle("KernelOracle", [{"k": "hist", "nr": len(data["user5"]["P"])}], timeout=300)[0]
+        hist = hq["histories"]
         by_kernel = {}
         for (r, name), ans in zip([(r, kn) for r in rotations for kn in knames], scen):
             if r == rotations[0]:
@@ -129,7 +131,34 @@ def main(tier, seed):
                 s["rot"] = ("history", hi_, t_)
                 plan.append((kn, s, "knots"))
         # one path, changing content (spec FileHistories): a malformed kernel file, then the corrected file under the same path
-        fh = tlc.oracle("KernelOracle", [{"k": "hist"}], timeout=300)[0]["file_histories"]
+        fh = hq["file_histories"]
+        # the same user kernel written with its pressure rows in other orders (spec RowOrders): results of the ascending file
+        for ro in hq["row_orders"]:
+            if ro["order"] == "ascending":
+                continue
+            rname = "user5-rows-" + ro["order"]
+            rpath = user_kernel(os.path.join(tmp, ro["order"], "user-kernel-5.csv"), 0, row_perm=ro["perm"])
+            kernels[rname] = (None, rpath)
+            P_, W_, M_ = read_kernel(rpath)
+            data[rname] = {"arg": rpath, "P": P_, "W": W_, "M": M_}
+            for s in by_kernel["user5"]:
+                s = dict(s)
+                s["rot"] = ("row-order", ro["order"])
+                plan.append((rname, s, "knots"))
+        # grid histories (spec GridHistories): grids with equal length and end points but other interior pressures, one after the other
+        ngrid = 0
+        for kn in ("shipped", "user5"):
+            cands = [s for s in by_kernel[kn] if s["rows_alt"] and s["cls"] == "physical"]
+            for gi, s0 in enumerate(cands[(seed % 3)::max(1, len(cands) // (6 if thorough else 3))][: (6 if thorough else 3)]):
+                for hi2, gh in enumerate(hq["grid_histories"]):
+                    ngrid += 1
+                    for sj, which in enumerate(gh):
+                        s = dict(s0)
+                        s["rows"] = s0["rows"] if which == "A" else s0["rows_alt"]
+                        s["limits"], s["order"] = "none", 0
+                        s["rot"] = ("grid-history", gi, hi2, sj)
+                        plan.append((kn, s, "knots"))
+        run.set(grid_histories=ngrid)
         data["user5-rewritten"] = data["user5"]
         for fi, steps in enumerate(fh):
             fpath = os.path.join(tmp, f"f{fi}", "user-kernel-5.csv")
@@ -274,7 +303,8 @@ def main(tier, seed):
         run.set(kernel_file_histories=nhist, scenarios_run=len(judge_q), refusal_cases=len(ref_q), worst_rss_physical=worst, exhaustive=False,
                 rule="scenario = weight vector (77 unit vectors, 30 pairs, 10 dense small-integer vectors at physical magnitude, 2 dense at 10^3-10^4 mmol/g; 5+3+2 on the "
                      "5-column user kernels written by the harness (pore sizes crossing 10 and 100 nm): two files with the same name in different directories, also used in all 16 orders of length 4, "
-                     "and one path whose content goes malformed -> corrected) x (pressure grid on kernel rows, limits none/lower/upper/both, spline order 0-3) assigned by rotation "
+                     "one path whose content goes malformed -> corrected, the same table with descending / shuffled pressure rows; grid histories: grids sharing length and "
+                     "end pressures with other interior pressures fitted one after the other) x (pressure grid on kernel rows, limits none/lower/upper/both, spline order 0-3) assigned by rotation "
                      "(seed) so that all 64 combinations occur, enumerated by spec/Kernel.tla; plus the non-unit vectors on pressures between the kernel rows; "
                      + ("thorough: all, under 4 rotations" if thorough else "quick: every 2nd shipped-kernel scenario, all user-kernel ones")
                      + "; each scenario = 3 library runs (order 0, scenario order, points outside the limits changed); distinct = (kernel, scenario id, rotation, grid kind); all non-trivial")
